@@ -14,7 +14,7 @@ RULE = ('simulated sessions (generator of C08/C09, generated schedules); the sim
         'seat must lead (declarer when dummy leads; never dummy), each card not sent on this connection exactly once in '
         'order, dummy\'s cards exactly once to each non-dummy seat after the opening lead and before the second card; '
         'finally End of session; nothing else. Global clock: no connection is sent dummy\'s cards before the leader has '
-        'sent the opening lead. evaluations = sessions. Non-trivial = played board in which dummy leads a trick (so '
+        'sent the opening lead. In a fifth of the sessions a SECOND table (another Server object on another port with its own four clients, boards and log) runs concurrently in the same process under the same schedule; both tables are judged by the same oracles. evaluations = sessions. Non-trivial = played board in which dummy leads a trick (so '
         '"Dummy to lead" occurs) under a non-sequential schedule; distinct by scenario hash.')
 ASSUMPTIONS = ['simulation kernel fidelity (DESIGN.md 4.3/4.5)', 'server text is read with tolerant regexes (any case, runs of blanks)']
 
@@ -25,9 +25,14 @@ def plan(tier):
     return [{'kind': 'sessions', 'n': per, 'max_boards': mb, 'play_prob': 5} for i in range(n)]
 
 
-def check_session(scenario, schedule, stats=None, **kw):
+TABLE2 = st.one_of(st.none(), st.none(), st.none(), st.none(), SE.SCENARIO(1, 2, 2).map(lambda sc: dict(sc, intruders=[], split=None)))
+
+
+def check_session(scenario, schedule, stats=None, table2=None, **kw):
+    if table2 is not None:
+        scenario = dict(scenario, table2=table2)
     r = SE.run_case(scenario, schedule)
-    probs = SE.transcript_problems(scenario, r)
+    probs = SE.transcript_problems(scenario, r) + SE.second_table_problems(scenario, r)
     if not probs and r.outcome.status != 'completed':
         SE.first_problem(SE.completion_problems(scenario, r), scenario, schedule, r)
     SE.first_problem(probs, scenario, schedule, r)
@@ -36,14 +41,16 @@ def check_session(scenario, schedule, stats=None, **kw):
         f = SE.scenario_features(scenario, schedule)
         for x in f:
             stats.cls(x)
+        if scenario.get('table2') is not None:
+            stats.cls('sessions with a second table running concurrently in the same process (own server, clients, log)')
         if 'dummy leads a trick' in f and 'non-sequential schedule' in f:
             stats.nt(scenario, {'scenario': SE.brief(scenario),
                                 'north_received': [t for d, t in r.client_logs[0] if d == '<'][:12]} if len(scenario['boards']) == 1 else None)
 
 
 def run_shard(spec, seed, tier, stats):
-    v = run_hypothesis(lambda scenario, schedule: check_session(scenario, schedule, stats),
-                       {'scenario': SE.SCENARIO(1, spec['max_boards'], spec['play_prob']), 'schedule': SE.SCHEDULE()},
+    v = run_hypothesis(lambda scenario, schedule, table2: check_session(scenario, schedule, stats, table2=table2),
+                       {'scenario': SE.SCENARIO(1, spec['max_boards'], spec['play_prob']), 'schedule': SE.SCHEDULE(), 'table2': TABLE2},
                        seed, spec['n'], tier == 'thorough')
     return [SE.reduce_violation(check_session, v)] if v else []
 
